@@ -478,18 +478,22 @@ def rule_common_axis_choice(ctx, fi):
     taken; a placeholder gives way to any real axis (whatever its length, so that the result does not depend on the argument order); a single label gives way
     to several; a real axis never gives way to a placeholder, several labels never to one."""
     from ..rules import expr_term, val_eval, UNKNOWN
+    from ..rules import helper_nodes
     test = None
-    for node in ast.walk(fi.node):
+    home = fi
+    for f_ in helper_nodes(ctx, fi):
+      for node in ast.walk(f_.node):
         if isinstance(node, ast.If) and any(isinstance(b, ast.Assign) and len(b.targets) == 1 and isinstance(b.targets[0], ast.Name) and isinstance(b.value, ast.Name)
                                             for b in node.body):
             for b in node.body:
                 if isinstance(b, ast.Assign) and isinstance(b.value, ast.Name) and isinstance(b.targets[0], ast.Name):
                     test = (node, b.targets[0].id, b.value.id)
+                    home = f_
     if test is None:
         ctx.undecide('R3', '_get_axes: the update `if <test>: common_axis = axis` was not found')
         return
     node, cname, aname = test
-    t = expr_term(ctx, fi, node.test)
+    t = expr_term(ctx, home, node.test)
     C, A = ('name', cname), ('name', aname)
     kinds = {'placeholder': (1, None), 'one label': (1, 's'), 'empty': (0, UNKNOWN), 'several labels': (3, 'p')}
 
